@@ -1,6 +1,7 @@
 package client
 
 import (
+	"bytes"
 	"encoding/binary"
 	"errors"
 	"fmt"
@@ -353,6 +354,36 @@ func propC16(c C16Case) error {
 func TestC16Regress(t *testing.T) { hx.Regress(t, hC16, "TestC16", propC16) }
 
 func TestC16(t *testing.T) { hx.Check(t, hC16, "TestC16", genC16, propC16) }
+
+// TestC16FieldValues: every field of the status x small and boundary values (0..300, the powers of two and
+// their neighbours, the largest values), one field at a time over a background of zeros and of ones, through
+// FromWireFormat and through GetStatus: the field comes back exactly, the others stay what they were.
+func TestC16FieldValues(t *testing.T) {
+	var values []uint32
+	for v := uint32(0); v <= 300; v++ {
+		values = append(values, v)
+	}
+	for b := uint(8); b < 32; b++ {
+		values = append(values, 1<<b-1, 1<<b, 1<<b+1)
+	}
+	values = append(values, 0xfffffffe, 0xffffffff)
+	for field := 0; field < sizeofStatus/4; field++ {
+		for _, bg := range []byte{0, 0xff, 1} {
+			for _, v := range values {
+				buf := bytes.Repeat([]byte{bg}, sizeofStatus)
+				ne.PutUint32(buf[4*field:], v)
+				for _, kind := range []string{"wire", "get"} {
+					c := C16Case{Kind: kind, Buf: buf, Garbage: bytes.Repeat([]byte{0x5a}, 44)}
+					hC16.Eval()
+					if err := hx.Guard(propC16, c); err != nil {
+						hC16.Fail(t, "TestC16", c, "field %d = %#x over a background of %#x bytes: %v", field, v, bg, err)
+					}
+				}
+			}
+		}
+	}
+	hC16.Class("field-value-sweep")
+}
 
 // TestC16Constants compares the exported names with the kernel's numbers and
 // sweeps FromWireFormat over every length 0..80.
